@@ -97,6 +97,11 @@ def run_case(args) -> str:
     try:
         jwk = case_jwk(c)
         key = J.fresh_jkey(jwk)
+        if variant % 2 == 1:
+            # the same key offered inside a (single-key) key set, directly or through a callable: the gates must fire all the same
+            from joserfc.jwk import KeySet
+            ks = KeySet([key])
+            key = ks if variant % 4 == 1 else (lambda obj: ks)
         alg = c["alg"]
         if c["side"] == "jws":
             ser = c["path"]
